@@ -238,10 +238,13 @@ def run(ctx):
     ctx.assumptions += ["pressures, latencies and totals are finite doubles below 1e16 in magnitude (str(float) has no exponent)",
                         "wf_analysis (evaluated on every case): one pressure entry per port, distinct line numbers, the CP list is a "
                         "subsequence of the kernel, non-instruction lines carry no tp_unknown flag, every LCD has a member",
+                        "cp_covers (evaluated on every case; Props/C13cp.v): a line with a non-zero latency_cp is one of the lines "
+                        "get_critical_path() returned",
                         "selection_consistent (length_warning_iff): markers found <=> the kernel is a proper part of the parsed file "
                         "(C11's theorems)"]
     ctx.ensure_static()
     ctx.compile_theorems("Props/C13.v")
+    ctx.compile_theorems("Props/C13cp.v")
     # data tie: the default-architecture table
     import osaca.osaca as OO
     ctx.obligation("DEFAULT_ARCHS equals the model's default_arch table", "translation",
@@ -251,6 +254,7 @@ def run(ctx):
     cases = corpus_cases()
     cases += G.shipped_cases(ctx.rng, ctx.tier, ctx.n(1, 8))
     cases += G.generated_cases(ctx.rng, ctx.tier, ctx.n(66, 520))
+    cases += G.cp_tie_cases(ctx.rng, ctx.tier)       # longest dependency chain exactly as long as one independent instruction
     ctx.log("%d cases generated (%.1fs)" % (len(cases), time.time() - t0))
     t0 = time.time()
     results = run_reports(ctx, cases)
